@@ -257,9 +257,11 @@ def case_hash(c):
     return hashlib.sha256("\n".join(c["ops"]).encode()).hexdigest()[:16]
 
 
-def shrink(pid, driver, case, pred_kind, clause, work, budget=120):
-    """delta-debug the op list while the failure persists.
+def shrink(pid, driver, case, pred_kind, clause, work, budget=60, fail_op=None, max_s=90):
+    """delta-debug the op list while the failure persists (bounded by evaluations and wall time).
     pred_kind: 'oracle' (oracle fails with same clause) or 'diff' (streams diverge)."""
+    t_end = time.time() + max_s
+
     def still_fails(ops):
         c = {"id": "shrink", "nt": False, "ops": ops}
         io, mo, fails, err = exec_both(pid, driver, [c], work, "shrink", 120)
@@ -271,7 +273,12 @@ def shrink(pid, driver, case, pred_kind, clause, work, budget=120):
     ops = list(case["ops"])
     n = 2
     evals = 0
-    while len(ops) >= 2 and evals < budget:
+    # cheap first step: drop everything after the op at which the failure was observed
+    if fail_op is not None and fail_op + 1 < len(ops):
+        evals += 1
+        if still_fails(ops[:fail_op + 1]):
+            ops = ops[:fail_op + 1]
+    while len(ops) >= 2 and evals < budget and time.time() < t_end:
         chunk = max(1, len(ops) // n)
         reduced = False
         for start in range(0, len(ops), chunk):
@@ -282,7 +289,7 @@ def shrink(pid, driver, case, pred_kind, clause, work, budget=120):
             if still_fails(cand):
                 ops = cand; n = max(n - 1, 2); reduced = True
                 break
-            if evals >= budget:
+            if evals >= budget or time.time() > t_end:
                 break
         if not reduced:
             if chunk == 1:
@@ -454,13 +461,17 @@ def body(args, cfg, pid, tier, seed, driver, work, cmds, t0):
     for sig, fl in by_sig.items():
         rep = min(fl, key=lambda f: len(f["case"]["ops"]))
         if rep["kind"] == "diff" and has_oracle:
-            # a divergence next to a property failure: report the property failure(s); keep the diff in the replay notes
-            pass
+            # a divergence next to a property failure found in the same run: the property failure(s) are the
+            # report; the divergence is not a separate "no failing input found" violation
+            continue
         k = next((k for k in known if k["property"] == pid and k["signature"] == sig), None)
         if k:
             known_lines.append(f"KNOWN-FINDING: property={pid} {sig} {k['what']} ({len(fl)} case(s) this run)")
             continue
-        ops = shrink(pid, driver, rep["case"], rep["kind"], rep["clause"], work)
+        if n < 4:
+            ops = shrink(pid, driver, rep["case"], rep["kind"], rep["clause"], work, fail_op=rep.get("op"))
+        else:   # many distinct signatures in one run: report the rest unshrunk (smallest case seen)
+            ops = list(rep["case"]["ops"])
         c2 = {"id": "min", "nt": True, "ops": ops}
         rio, rmo, rf, e = exec_both(pid, driver, [c2], work, "min", 300)
         n += 1
